@@ -12,7 +12,7 @@ LEVEL = "fault_enumeration"
 RULE = ("for each response kind (state, capabilities, properties, energy, humidity): a valid frame describing a state different in every "
         "field from the client's current one is corrupted at one byte position after the start byte with a substitute value, either "
         "plain (outer checksum now wrong) or - for body bytes other than the trailing check byte - with the outer checksum recomputed; "
-        "the client has previously learned a capability profile with property-protocol features, energy and humidity reporting and holds valid readings; the frame is the only answer to every command of a refresh() (and for capabilities also to get_capabilities()); in half of the cases another client object with its own device receives and accepts the genuine frame first (and again every 10 corruptions). Independent validity predicate "
+        "the client has previously learned a capability profile with property-protocol features, energy and humidity reporting and holds valid readings; the frame is the only answer to every command of a refresh() (and for capabilities also to get_capabilities()); in a third of the cases a healthy multi-command refresh is abandoned (cancelled) by its caller after its first answer, just before the corrupted ones; in half of the cases another client object with its own device receives and accepts the genuine frame first (and again every 10 corruptions). Independent validity predicate "
         "V = outer checksum ok and (id in {B0,B1} or CRC-8 ok or additive ok); for not V: to_dict() and the capability attributes must be "
         "unchanged and online/supported must be False. Corruptions with V true (the other check matches by chance, or the property-response "
         "exemption) are skipped and counted. distinct = (kind, position, value, fix-up); all judged cases are non-trivial")
@@ -72,7 +72,7 @@ def generate(ctx, rng):
                     vals = sorted(rng.sample(range(1, 256), 51))
                 else:
                     vals = list(range(1, 256))
-                yield ("c", check, kind, pos), {"kind": kind, "check": check, "pos": pos, "xors": vals, "genuine_seen": pos % 2 == 1}
+                yield ("c", check, kind, pos), {"kind": kind, "check": check, "pos": pos, "xors": vals, "genuine_seen": pos % 2 == 1, "abandoned_refresh": pos % 3 == 2}
     # the length byte (position 1) with all 255 values over many different valid frames (a weakened outer check that trusts the
     # declared length is only fooled by particular frame contents)
     for j in range(40 if quick else 600):
@@ -120,6 +120,15 @@ def run_case(ctx, case):
     feed = {"frames": None}
 
     def on_exchange(conn, req, packets, meta):
+        if feed.get("slow") is not None:
+            # a healthy refresh: the first command is answered, then the device closes the connection and the reconnect for the
+            # second command hangs - that is where the caller gives up (a cancellation while *waiting for a reply* is turned
+            # into a timeout by LAN.send and would not end the refresh)
+            feed["slow"] += 1
+            if feed["slow"] == 1:
+                dev.connect_script = ["hang"]
+                return [(0, p) for p in packets] + [(0, "fin")]
+            return None
         if feed["frames"] is None:
             return None
         return [(0, dev.wrap(conn, f)) for f in feed["frames"]]
@@ -142,6 +151,22 @@ def run_case(ctx, case):
         else:
             await other["ac"].refresh()
         other["n"] += 1
+
+    async def abandoned_refresh(ac):
+        """A refresh (several commands) that its caller cancels after the first answer arrived; nothing of it may linger."""
+        import asyncio
+        feed["slow"] = 0
+        task = asyncio.ensure_future(ac.refresh())
+        await asyncio.sleep(0.4)
+        task.cancel()
+        try:
+            await task
+        except BaseException:  # noqa: BLE001
+            pass
+        feed["slow"] = None
+        dev.connect_script = []
+        await asyncio.sleep(3.0)
+        other["abandoned"] = other.get("abandoned", 0) + 1
 
     async def baseline(ac):
         feed["frames"] = None
@@ -177,6 +202,8 @@ def run_case(ctx, case):
         for i, (pos, x) in enumerate(pos_list):
             if case.get("genuine_seen", kind == "lenbyte") and i % 10 == 0:
                 await genuine_elsewhere(frame)
+            if case.get("abandoned_refresh") and i % 12 == 0:
+                await abandoned_refresh(ac)
             c = bytearray(frame)
             c[pos] ^= x
             variants = [("plain", bytes(c))]
@@ -207,6 +234,7 @@ def run_case(ctx, case):
 
     H.run_virtual(go, net)
     ctx.bump("genuine-frame-accepted-by-another-client-first", other["n"])
+    ctx.bump("abandoned-healthy-refresh-before-corrupted-ones", other.get("abandoned", 0))
     for rec in out:
         if rec[0] == "baseline":
             _, k, changed, online, supported = rec
